@@ -70,8 +70,13 @@ func main() {
 		runProbeHistories(r, probe, snapshot, work)
 	}
 
-	// ---- 3. std histories
-	runStdHistories(r, std)
+	// ---- 2b. the two known contract breaks (jumps out of / into io blocks)
+	runQuirkScenarios(r, binDir, snapshot, work)
+
+	// ---- 3. std histories (C08_ONLY=probe skips them: a development aid, never set by ./check)
+	if os.Getenv("C08_ONLY") != "probe" {
+		runStdHistories(r, std)
+	}
 
 	r.Extra("wall_total_s", time.Since(t0).Seconds())
 	r.Finish("templates: every public method with a receiver of the probe packages and of std/ (distinct = distinct feature vectors); " +
